@@ -4,6 +4,7 @@ import GB.C20.ProofsTrie
 import GB.C20.ProofsGwMain
 import GB.C20.ProofsStMain
 import GB.C20.ProofsVerb
+import GB.C20.ProofsLegalMain
 import GB.Generated.Facts
 /-
   C20 — property theorems. Helper lemmas live in Proofs*.lean.
@@ -130,26 +131,41 @@ example : Derives [47, 118, 49, 47, 123, 110, 97, 109, 101, 61, 97, 47, 42, 125,
   Full statement of the rejection clause (DESIGN 5.20):
     C20_gw_rejects : noLeadingSlash s ∨ illegalChar s ∨ badPercent s ∨ badBraces s ∨ badFieldPath s ∨ emptySegment s
                        → ∀ g, gwParse s ≠ .ok g
-  Proved below: no leading slash, NUL. The remaining classes need the converse of `C20_gw_complete_relaxed`
-  (gwParse s = .ok g → ∃ t, DerivesRelaxed s t), which is not proved (it needs the tokenizer/parser state
-  synchronisation argument behind "variable inside variable is not possible thanks to tokenize"). They are
-  checked on every run against the recogniser for all strings of length ≤ 5 over {/ { } = . * : a %}, every
-  single-edit mutation of sampled derivations and random strings (driver verdict VIOL).
+  Proved below: no leading slash, NUL, illegal path characters (any byte outside the template alphabet,
+  anywhere in the string, the verb included — D22). The remaining classes (ill-formed percent-escape,
+  unbalanced / nested variables, bad field paths, empty segments) need the converse of
+  `C20_gw_complete_relaxed` (gwParse s = .ok g → ∃ t, DerivesRelaxed s t), which is not proved: it needs the
+  tokenizer/parser state synchronisation argument behind "variable inside variable is not possible thanks to
+  tokenize". They are checked on every run against the recogniser for all strings of length ≤ 5 over
+  {/ { } = . * : a %}, every single-edit mutation of sampled derivations, a byte sweep and random strings
+  (driver verdict VIOL), and `C20_gw_legacy_accept_fails` pins the D19 witnesses on the model.
 -/
-theorem C20_gw_rejects_partial (s : Bytes) (h : noLeadingSlash s = true ∨ (0 : UInt8) ∈ s) :
-    gwParse s = .error .reject := by
-  unfold gwParse gwParseWith
-  cases s with
-  | nil => rfl
-  | cons c body =>
-    simp only
-    by_cases hc : (c != cSlash) = true
-    · simp [hc]
-    · simp only [hc, Bool.false_eq_true, if_false]
-      rcases h with h | h
-      · simp [noLeadingSlash] at h hc; exact absurd hc h
+theorem C20_gw_rejects_partial (s : Bytes)
+    (h : noLeadingSlash s = true ∨ (0 : UInt8) ∈ s ∨ illegalChar s = true) : ∀ g, gwParse s ≠ .ok g := by
+  intro g hg
+  rcases h with h | h | h
+  · unfold gwParse gwParseWith at hg
+    cases s with
+    | nil => simp at hg
+    | cons c body =>
+      have hc : (c != cSlash) = true := by simpa [noLeadingSlash] using h
+      simp [hc] at hg
+  · unfold gwParse gwParseWith at hg
+    cases s with
+    | nil => simp at hg
+    | cons c body =>
+      simp only at hg
+      by_cases hc : (c != cSlash) = true
+      · simp [hc] at hg
       · have : (c :: body).contains 0 = true := by simpa using h
-        simp only [this, if_true]
+        simp only [hc, Bool.false_eq_true, if_false, this, if_true] at hg
+        exact absurd hg (by simp)
+  · have := gwParse_legal s g hg
+    rw [this] at h
+    exact absurd h (by simp)
+
+/-- the hypotheses are satisfiable: "/a:b c" (a space in the verb) is such a string, and was accepted before D22 -/
+example : illegalChar [47, 97, 58, 98, 32, 99] = true := by decide
 
 /-! ### strict parser -/
 
